@@ -15,7 +15,7 @@ HARNESSES[name] = dict(
 
 # loops that get a bound of their own in every harness
 DEFAULT_LOOPS = [
-    (r"verif_kani::model::mix", 170),       # UF table scan: exact trip count is concrete, cap = UF_CAP + margin
+    (r"verif_kani::model::mix", 260),       # UF table scan: exact trip count is concrete, cap = UF_CAP + margin
 ]
 
 COMMON_ASSUMPTIONS = [
@@ -49,12 +49,44 @@ H("c03_server_finish_exact", "h_c03::c03_server_finish_exact",
   "ServerLogin::finish is Ok(k) iff mac == HMAC(km3, hashed_transcript), k == session_key, else InvalidLoginError",
   "every 24-byte state x every 8-byte finalization, every compression function", covers=["accept", "reject"])
 
-H("d_strict_credential_finalization", "h_decoders::d_strict_credential_finalization",
-  "CredentialFinalization::deserialize accepts exactly the 8-byte strings and re-encodes to the input",
-  "all lengths 0..=72", covers=["ok", "err"])
+# ---- D: decoders (suite M)
+DECODERS = {
+    "reg_req": ("RegistrationRequest", 1), "reg_resp": ("RegistrationResponse", 3), "reg_upload": ("RegistrationUpload", 50),
+    "server_registration": ("ServerRegistration", 50), "cred_req": ("CredentialRequest", 35),
+    "cred_resp": ("CredentialResponse", 117), "cred_fin": ("CredentialFinalization", 8), "setup": ("ServerSetup", 10),
+    "setup_xk": ("ServerSetup<_, external key>", 11), "client_reg": ("ClientRegistration", 2),
+    "client_login": ("ClientLogin", 69), "server_login": ("ServerLogin", 24),
+}
+D_QUICK = []
+for k, (ty, l) in DECODERS.items():
+    H("d_" + k, "h_decoders::d_" + k,
+      "%s::deserialize(input) is Ok <=> len == %d and every element/scalar/key field valid; then serialize == input" % (ty, l),
+      "lengths 0, L-1, L, L+1 (concrete), all contents symbolic", covers=["ok", "err"])
+    D_QUICK.append("d_" + k)
+D_ALL = []
+for n in ["reg_req", "reg_resp", "reg_upload_lo", "reg_upload_hi", "cred_req_lo", "cred_req_hi", "cred_resp_lo",
+          "cred_resp_mid", "cred_resp_hi", "cred_fin", "setup", "setup_xk", "client_reg", "client_login_lo",
+          "client_login_hi", "server_login"]:
+    H("d_all_" + n, "h_decoders::d_all_" + n, "same statement, every length of the range",
+      "every length 0..=L+64 (split in ranges), all contents symbolic", covers=["err"], timeout=2400)
+    D_ALL.append("d_all_" + n)
+
+# ---- S6 / S7 (private units of opaque.rs)
+H("s6_pwd_key_len3", "verif_kani_opaque::s6_pwd_key_len3",
+  "get_password_derived_key: KSF called exactly once on Finalize(pw, blind, evaluation), with the passed instance or the default; result == Extract(\"\", out || Stretch(out)); KSF failure => Err",
+  "password 3 symbolic bytes; every blind, evaluation element, KSF output, KSF instance tag, fail flag", covers=["ok", "ksf error"])
+H("s6_pwd_key_len0", "verif_kani_opaque::s6_pwd_key_len0", "same, empty password", "empty password", covers=["ok", "ksf error"])
+H("s6_default_explicit_eq_none", "verif_kani_opaque::s6_default_explicit_eq_none",
+  "passing Some(&Ksf::default()) gives the same randomized password as passing None", "password 2 bytes", covers=["ok"])
+H("s6_pwd_too_long", "verif_kani_opaque::s6_pwd_too_long",
+  "a 65536-byte password is refused with an error before any stretching", "length 65536 (content zero: only the length matters)", covers=["reached"])
+H("s7_oprf_key_from_seed", "verif_kani_opaque::s7_oprf_key_from_seed",
+  "oprf_key_from_seed == DeriveKeyPair(Expand(seed, cred_id || 'OprfKey', Nok), 'OPAQUE-DeriveKeyPair')",
+  "seed 8 bytes, credential identifier 0..=2 bytes, all symbolic",
+  covers=["reached"], loops=[(r"derive_key", 2)])
 
 PROPERTIES["C03"] = dict(
-    quick=["c03_server_finish_exact", "d_strict_credential_finalization"],
-    thorough=["lemma_hmac_eq"],
+    quick=["c03_server_finish_exact", "d_cred_fin", "d_server_login"],
+    thorough=["lemma_hmac_eq", "d_all_cred_fin", "d_all_server_login"],
     assumptions=["C03's 'finalization from another session is rejected' reduces to: the server accepts exactly HMAC(km3, transcript hash) of its own pending state — proved for every state and every byte string; that another session's MAC differs is unforgeability of HMAC (not decided)"],
 )
